@@ -37,9 +37,15 @@ func init() {
 			"(or hands a and b unchanged to a sibling Compare); (N2) the helper's table, read by abstract interpretation of its SSA over {NULL, value}^2: has-null flag true iff " +
 			"an operand is NULL, sign negative for (NULL,value), positive for (value,NULL), zero for (NULL,NULL) wherever the flag makes the sign observable; (N3) every value " +
 			"returned as the comparison result is one of the constants -1/0/1, a negation of such, or another comparator's result - never raw integer arithmetic (a-b can overflow and flip sign). " +
-			"A violated N1/N2 entry means some Type orders NULL inconsistently with the others (or after non-NULL), N3 means antisymmetry can break at the integer boundaries.",
-		NotCovered: "transitivity/antisymmetry over non-NULL values, coherence of Compare with Convert, collation order (C29), float NaN ordering",
-		Technique:  "SSA dominance (sibling nil-guard engine) + abstract interpretation of the NULL helper over a 4-point domain",
+			"A violated N1/N2 entry means some Type orders NULL inconsistently with the others (or after non-NULL), N3 means antisymmetry can break at the integer boundaries. " +
+			"Exact-conversion clause for numbers of different Go kinds (the JSON number order, sql/types/compare_numbers.go): the order-valued functions (int result of the N3 shape, two or more operands) are " +
+			"enumerated structurally, the mixed-kind kernels among them by signature (two operands of different basic numeric kinds). (X1) every conversion to an integer type that cannot hold all values of its " +
+			"source type (uint64->int64, int64->uint64, float->integer) and whose result is compared with the other operand is exact under the dominating branch conditions - lower and upper side are separate " +
+			"obligations; besides comparisons against constants, a dominating comparison against another value with a known interval is used (float64(i) > f false => f >= -2^63); (X2) every numeric operand of a " +
+			"mixed-kind kernel reaches a comparison against a non-constant value, or a comparator call, through value-preserving steps only: an operand that is only ever compared as its float64 rounding (beyond 2^53) " +
+			"or its integer truncation makes two different numbers indistinguishable. A violated X1/X2 instance makes the number order intransitive (5 > 2^64-1 > 7 > 5).",
+		NotCovered: "transitivity/antisymmetry over non-NULL values beyond the exact-conversion clause (that the guards of a kernel return the right sign, that a strict comparison of rounded values is used only in its sound direction), coherence of Compare with Convert (Type.Compare converts both operands with the type's own Convert and drops the range flag), collation order (C29), float NaN ordering",
+		Technique:  "SSA dominance (sibling nil-guard engine) + abstract interpretation of the NULL helper over a 4-point domain + interval engine over dominating branch conditions for the conversion clause",
 		Run: func(c *Ctx) {
 			rels := []string{}
 			for _, pk := range c.P.Module {
@@ -48,6 +54,7 @@ func init() {
 			runC26(c, c26Config{Rels: rels, IfaceRel: "sql", Iface: "Type", Method: "Compare", HelperRel: "sql/types", Helper: "CompareNulls",
 				ValueIface: "ValueType", ValueMethod: "CompareValue", ValueHelper: "CompareNullValues", NilPredRel: "sql", NilPred: "Value.IsNull",
 				Floors: [3]int{74, 8, 37}})
+			runC26X(c, c26XConfig{Rels: rels, Floors: [2]int{6, 8}})
 		},
 		Fixture: func(c *Ctx, fx *Prog) {
 			expectFixture(c, fx, "c26: unguarded Compare, wrong null return, wrong helper sign/flag, raw subtraction",
@@ -64,8 +71,17 @@ func init() {
 					runC26(fc, c26Config{Rels: []string{"testdata/c26/cmp"}, IfaceRel: "testdata/c26/cmp", Iface: "Type", Method: "Compare",
 						HelperRel: "testdata/c26/cmp", Helper: "CompareNulls"})
 				})
+			expectFixture(c, fx, "c26x: unguarded uint64->int64, int64->uint64 without the sign guard, float->uint64 with the 2^64 boundary, operands compared only as rounded / truncated images",
+				[]string{
+					"C26-X1:BadIntUint/int64(u64)/hi",
+					"C26-X1:BadIntUnsigned/uint64(i64)/lo",
+					"C26-X1:BadUintFloat/uint64(f64)/hi",
+					"C26-X2:BadRounded/operand i64",
+					"C26-X2:BadTruncated/operand f64",
+				},
+				func(fc *Ctx) { runC26X(fc, c26XConfig{Rels: []string{"testdata/c26/numcmp"}}) })
 		},
-		FixturePkgs: []string{"./testdata/c26/cmp"},
+		FixturePkgs: []string{"./testdata/c26/cmp", "./testdata/c26/numcmp"},
 	})
 }
 
